@@ -28,6 +28,7 @@ type playStep struct {
 	Label  string `json:"label,omitempty"`
 	OrDone bool   `json:"or_done,omitempty"`
 	WaitMs int    `json:"wait_ms,omitempty"` // step-specific timeout (for "blocked" expectations)
+	Arg    string `json:"arg,omitempty"`     // if set, the hook's arguments must print as this
 }
 
 type playSpec struct {
@@ -244,6 +245,12 @@ func (c *Ctx) play(sp *playSpec) Obs {
 		default:
 			rec["got"] = ev.point
 			rec["args"] = ev.args
+		}
+		if rec["got"] == st.Until && st.Arg != "" && rec["args"] != st.Arg {
+			drift = fmt.Sprintf("step %d: actor %s reached %q with argument %q, the schedule expects %q", i, st.Actor, st.Until, rec["args"], st.Arg)
+			rec["drift"] = drift
+			steps = append(steps, rec)
+			break
 		}
 		if rec["got"] != st.Until && !(st.OrDone && rec["got"] == "done") {
 			drift = fmt.Sprintf("step %d: actor %s expected to reach %q, got %q", i, st.Actor, st.Until, rec["got"])
